@@ -51,6 +51,7 @@ var glTargets = []glTarget{
 	{pkg: "net", recv: "", name: "IsPrivateAddress"},
 	{pkg: "net", recv: "", name: "RequirePublicIP"},
 	{pkg: "ipinfo", recv: "", name: "GetIPInfoFromIP"},
+	{pkg: "ipinfo", recv: "", name: "GetIPInfoFromAddr", opaque: map[string]bool{"SplitHostPort": true, "ParseIP": true, "IndexByte": true}},
 	{pkg: "service", recv: "serverSaltGenerator", name: "splitSalt"},
 	{pkg: "service", recv: "serverSaltGenerator", name: "IsServerSalt", opaque: map[string]bool{"getTag": true}},
 	{pkg: "service", recv: "", name: "matchesIP", listElem: "CipherEntry"},
@@ -489,6 +490,16 @@ func (f *glFn) expr(e ast.Expr) string {
 	case *ast.SliceExpr:
 		if x.Low == nil && x.High == nil {
 			return f.expr(x.X)
+		}
+		if b, ok := f.typeOf(x.X).Underlying().(*types.Basic); ok && b.Info()&types.IsString != 0 && !f.t.strBytes && x.Max == nil {
+			lo, hi := "(0 : Int)", "(GoRT.strLen "+f.expr(x.X)+")"
+			if x.Low != nil {
+				lo = f.expr(x.Low)
+			}
+			if x.High != nil {
+				hi = f.expr(x.High)
+			}
+			return "(← GoRT.strSlice " + f.expr(x.X) + " " + lo + " " + hi + ")"
 		}
 		if x.Max == nil {
 			lo, hi := "(0 : Int)", "(GoRT.len "+f.expr(x.X)+")"
